@@ -1,5 +1,7 @@
 """C20 - domain names: exclusive ownership, owner-only changes, paid transfers, expiry arithmetic (Ons.tla, Ons_Trace.tla)."""
-import subsys, vlib
+import json, os
+import bidlib, subsys, vlib
+from ledger import vdrive
 
 C = dict(Accts={"a1", "a2"}, Names={"n.ol", "x.n.ol"}, SubNames={"x.n.ol"}, TheParent="n.ol", Amts={3, 4}, Base=2, Pb=1, MaxH=3, InitBal=7, Deviations=set())
 CBIG = dict(C, Amts={3, 4, 6}, MaxH=4, InitBal=9)
@@ -67,8 +69,48 @@ def tally(tf):
         prev = e
 
 
+def deals(ctx):
+    """A registered name also changes hands through the bid application (external_apps/bid): Bid_Trace's Name.* part."""
+    ctx.sany("Bid", "Bid_Trace")
+    n, blocks = (40, 18) if ctx.quick() else (400, 24)
+    tf = os.path.join(ctx.tmp, "Bid-names.ndjson")
+    rep = vdrive(ctx, "subsys", "--family", "bid", "--seed", ctx.seed, "--n", n, "--blocks", blocks, "--out", tf, "Bid")
+    bidlib.violations(ctx, tf, "bid", "Name.")
+    lines = open(tf).read().splitlines()
+    moved = 0
+    target = None
+    prev = None
+    for i, ln in enumerate(lines):
+        e = json.loads(ln)
+        if e["ev"] == "Block" and prev is not None:
+            ch = [m for m, d in e["s"]["dom"].items() if m in prev["s"]["dom"] and prev["s"]["dom"][m]["owner"] != d["owner"] and m not in e["skipa"]]
+            moved += len(ch)
+            if not ch and target is None and e["s"]["dom"] and not e["skipa"] and not any(x["k"].endswith("_DEC") for x in e["txs"]):
+                target = i
+        prev = e
+    if moved < 3 or target is None:
+        raise vlib.ToolFailure("workload too poor: %d names changed hands through a deal" % moved)
+    # binding self-test: a name that changed hands although no deal was accepted in that block
+    e = json.loads(lines[target])
+    m = sorted(e["s"]["dom"])[0]
+    e["s"]["dom"][m]["owner"] = "a1" if e["s"]["dom"][m]["owner"] != "a1" else "a2"
+    bad = os.path.join(ctx.tmp, "bid-names-corrupt.ndjson")
+    open(bad, "w").write("\n".join(lines[:target] + [json.dumps(e)] + lines[target + 1:]) + "\n")
+    v = subsys.validate(ctx, "Bid", bidlib.BID_TRACE, bad, "bid-names-selftest")
+    if not any(p == "Name.ChangesHandsOnlyByAcceptedDeal" and line == target + 1 for (p, line, t, h) in v):
+        raise vlib.ToolFailure("self-test: a name changing hands without a deal is not reported (got %s)" % v[:5])
+    return dict(histories=rep["scenarios"], blocks=rep["blocks"], names_changing_hands_through_a_deal=moved,
+                rule="family bid (guided histories of the bid application): a registered name that no registry request touched in a block changes its owner only through an accepted deal of a conversation about it - to that conversation's bidder, from the owner it names, by the owner's own decision or by the bidder accepting and paying the owner's counter offer (Bid_Trace: Name.ChangesHandsOnlyByAcceptedDeal)")
+
+
 def run(ctx, replay):
+    if replay and json.load(open(replay)).get("spec") == "Bid":
+        bidlib.replay(ctx, replay, "Name.")
+        return
+    dealcov = None
     if not replay:
+        ctx.build("vworker", "vdrive")
+        dealcov = deals(ctx)
         for dev, want in DEVS:
             d = ctx.tlc("Ons", "dev.cfg", name="ons-dev-" + dev, allow_violation=True,
                         cfg_text=vlib.cfg_text("OSpec", dict(C, Deviations={dev}), INVS, PROPS))
@@ -84,3 +126,6 @@ def run(ctx, replay):
         if miss:
             raise vlib.ToolFailure("workload too poor: never observed: %s (seen %s)" % (miss, SEEN))
         ctx.cov["registry_steps_observed"] = dict(SEEN)
+    if dealcov:
+        ctx.cov["names_through_the_bid_application"] = dealcov
+        ctx.notes.append("binding self-test (Bid_Trace): a name that changed hands in a block without an accepted deal is reported as Name.ChangesHandsOnlyByAcceptedDeal")
